@@ -27,6 +27,7 @@ EXPLANATION = (
     "(D1x) every exit of an element-wise bit-sequence converter gives the bits the same orientation (order-preserving array plumbing counts as parity 0); strings freshly formatted from drawn amplitude indices are MSB-first, i.e. lack the key listing's reversal."
     ' Round 4: (D7) the embedding entry points (apply, lifted_matrix, the lifting twins) as decided by C01-D5; no matrix is widened by an identity factor on the left (qubit 0 is the leftmost Kronecker factor).'
     ' Round 5: (D8) exact expectation values are expectation(get_sparse_operator(op, width), state) on every exit (C09-D4); the bit-order tracer follows map(tuple, ...).'
+    ' Round 6: bits decoded from a drawn amplitude index -- tuple((i >> E(q)) & 1 for q in range(n)) -- carry a reversal iff E increases with q (D1); (D9) stale loop variables.'
 )
 RULE_TEXT = "instances = conversion functions (parity each), conversion paths (sum of parities), call-edge and alignment obligations; distinct by (rule, function/path)"
 ASSUMPTIONS = [
